@@ -262,7 +262,14 @@ pub fn run(subj: Box<dyn Subject>) -> EndKind {
                 want_poll = false;
                 match r {
                     Err(p) => {
-                        let injected = p.is::<Injected>();
+                        if p.is::<HorizonExceeded>() {
+                            with(|w| {
+                                let cap = w.child_poll_cap * 2;
+                                w.violate(1, || format!("more than {} child polls in one execution: the combinator spins inside its own poll (livelock)", cap));
+                                w.violate(home, || format!("more than {} child polls in one execution: the combinator spins inside its own poll", cap));
+                            });
+                        }
+                        let injected = p.is::<Injected>() || p.is::<HorizonExceeded>();
                         let m = if injected { String::new() } else { panic_message(&p) };
                         with(|w| {
                             if !injected {
@@ -271,6 +278,11 @@ pub fn run(subj: Box<dyn Subject>) -> EndKind {
                                     w.violate(1, || format!("a waker invocation inside poll panicked: {}", m));
                                 }
                                 w.violate(home, || format!("poll panicked: {}", m));
+                                // a completion guard (core::future::Ready, the crate's own adapters) fired: something polled a
+                                // future again after it had returned Ready
+                                if m.contains("polled after complet") || m.contains("polled to completion") {
+                                    w.violate(3, || format!("a future was polled again after it completed (its guard panicked: {})", m));
+                                }
                                 w.in_fire = NONE;
                             }
                             w.stack.clear();
